@@ -24,6 +24,12 @@ CHECKS = {
  "C09": dict(cat="model_checking", engine="bfs", technique="explicit-state BFS over operation histories of the real shm stack with byte-pattern, protection and bounded-liveness oracles in every state",
              text="Same state space as C08 with distinct byte patterns really written/read through segments and page-out/page-in round trips; monitors for read-before-close, page-out/unlink during read, delayed purge; in every reachable state a bounded liveness closure (complete jobs, retry) must end in a grant for every satisfiable request.",
              note="Staleness windows unreachable; completion atomicity as C08.", ref="DESIGN.md 3 C09"),
+ "C10": dict(cat="exploration", engine="enumeration", technique="bounded-exhaustive enumeration of node arities/argument layouts/output counts through the real graph2job and runner.run against direct evaluation of the graph",
+             text="Every argument layout (0-3 slots x every input subset x 0-2 keyword statics), every output count N in {1,2,3,9,10,11,12} with several naming styles (hand-built and via fluent yields), and every miscount N-2..N+2 is lowered with the real graph2job and executed task by task through the real runner/Memory/serde; stored datasets are compared with direct evaluation of the graph.",
+             note="Ambiguous payloads (static string equal to an input name, one input twice in args) excluded as the code documents.", ref="DESIGN.md 3 C10"),
+ "C14": dict(cat="exploration", engine="enumeration", technique="bounded-exhaustive enumeration of payload-variant pairs and of operations with before/after snapshots",
+             text="Every ordered pair of payload variants over shared sources is united (Graph +, Cascade.from_actions, graph2job): a name must carry one denotation, names must be reproducible in-process and under another hash seed; every operation of the fluent alphabet is run with snapshots of receiver, operand and an earlier derived action.",
+             note="Callable identity = object identity; statics compared by value.", ref="DESIGN.md 3 C14"),
  "C11": dict(cat="exploration", engine="enumeration", technique="bounded-exhaustive enumeration of all DAGs (n<=4/5) x payload/output/name patterns through every transformation, compared with a symbolic interpreter",
              text="Every DAG of the family goes through copy, rename (3 maps), dedup (+idempotence, no duplicates left), fuse (3 callbacks, fused payloads unfolded), expand (every consumed node x 5 sub-graph shapes x colliding leaf names x explicit/default maps) and split (4 key functions, re-join along cut edges); sink denotations (names excluded) must be preserved and every input must be an Output of a Node.",
              note="Single-node sub-graphs outside the expand alphabet; graphs <= 5 nodes.", ref="DESIGN.md 3 C11"),
@@ -82,7 +88,7 @@ def main():
              "kind_free_text": "stateless DFS with prefix replay + state-hash pruning over the real controller.run against a reference cluster behind the Bridge interface"},
             {"name": "bfs", "path": "vf/checks", "serves_properties": ["C08", "C09", "C18"],
              "kind_free_text": "explicit-state BFS over operation histories (fresh real objects rebuilt per history, canonical state hashing)"},
-            {"name": "enumeration", "path": "vf/checks", "serves_properties": ["C11", "C12", "C13", "C15", "C16", "C17", "C19"],
+            {"name": "enumeration", "path": "vf/checks", "serves_properties": ["C10", "C11", "C12", "C13", "C14", "C15", "C16", "C17", "C19"],
              "kind_free_text": "bounded-exhaustive input/program enumeration against a reference model"},
         ],
         "checks": checks,
